@@ -97,7 +97,18 @@ Theorem C17_pick_is_binary64 : forall u n : Z, (0 <= u < 2 ^ 64)%Z -> (1 <= n <=
   fy_pick u n = Zfloor (round radix2 (FLT_exp (-1074) 53) ZnearestE (IZR (u / 2 ^ 12) * bpow radix2 (-52) * IZR n)).
 Proof. exact fy_pick_is_binary64. Qed.
 
+(* both together, stated on the IEEE expression itself: the binary64 value trunc (fl ((u >> 12) * 2^-52 * n)) equals j exactly on the
+   interval of generator outputs [lobound n j * 2^12, lobound n (j+1) * 2^12) *)
+Theorem C17_binary64_index_cells : forall u n j : Z, (0 <= u < 2 ^ 64)%Z -> (1 <= n <= 2 ^ 53)%Z -> (0 <= j < n)%Z ->
+  (Zfloor (round radix2 (FLT_exp (-1074) 53) ZnearestE (IZR (u / 2 ^ 12) * bpow radix2 (-52) * IZR n)) = j <->
+   (lobound n j * 2 ^ 12 <= u < lobound n (j + 1) * 2 ^ 12)%Z).
+Proof.
+  intros u n j Hu Hn Hj. pose proof (fy_pick_is_binary64 u n Hu Hn) as E. pose proof (fy_pick_cells u n j Hu Hn Hj) as C.
+  unfold FYBridge.fexp64 in E. rewrite E in C. exact C.
+Qed.
+
 Print Assumptions C17_index_bound_binary64.
+Print Assumptions C17_binary64_index_cells.
 Print Assumptions C17_model_rounding_is_binary64.
 Print Assumptions C17_pick_is_binary64.
 Print Assumptions C17_cells_are_balanced_intervals.
